@@ -6,3 +6,15 @@ claim("C24", "exploration", "deterministic simulation: seeded schedules with lin
       "Seeded search over interleavings of the client's transport thread (feeding stdout/stderr, EOF, close) with application tasks calling fileno/recv/recv_stderr/set_combine_stderr, with statement-level pre-emption in pipe.py, buffered_pipe.py and channel.py; at every quiescent point a real select() on the real kernel pipe must agree with (stdout ready or stderr ready or EOF or closed). Sampling, not proof.",
       "Oracle only at quiescent points; Windows pipe variant not run; simulated primitives trusted to mirror CPython semantics.",
       "DESIGN.md 5/C24")
+claim("C01", "exploration", "deterministic simulation: seeded message/keyset scripts over a fault-injecting simulated stream; list-equality oracle plus independent RFC wire decoder",
+      "Real Packetizer pair keyed through the real Transport activation code; per run a seeded script of 1-200 messages (boundary-biased sizes up to 70000) with 1-4 key switches over every cipher x MAC x compression suite, under receive fragmentation (down to 1 byte), short sends and spurious timeouts/EAGAIN; the reader's list must equal the sent list, EOF must come at a packet boundary, and an independent decoder keyed by its own RFC 7.2 derivation must read the same messages from the wire. Sampling, not proof.",
+      "Endpoints are handed identical (K,H,session id,names) instead of running a key exchange (C04/C06 cover that). Compression setting is kept constant across epochs, as a rekey does.",
+      "DESIGN.md 5/C01")
+claim("C02", "fault_enumeration", "deterministic simulation with enumerated stream faults: every byte-position flip/delete/insert and packet-level drop/dup/swap/replay on recorded encrypted streams",
+      "For each cipher x MAC x compression suite a recorded encrypted stream of 4-8 packets (optionally spanning a rekey) is fed, edited, to a fresh real receiver followed by EOF: every single-byte flip, deletion and insertion position of the encrypted region, every whole-packet drop/duplicate/swap/replay, and random double edits. Delivered messages must be an unmodified prefix ending before the first touched packet, and the receiver must fail or hit EOF. Exhaustive over positions for the sampled streams.",
+      "MAC forgery probability ignored; streams are short (<= ~600 bytes); one mask per flip position.",
+      "DESIGN.md 5/C02")
+claim("C03", "fault_enumeration", "deterministic simulation: enumerated payload lengths per suite under short-write/EAGAIN faults; independent RFC 4253 section 6 decoder as oracle",
+      "Every payload length 1..4*blocksize+8 plus 42 boundary lengths up to 70000, for every cipher x MAC suite and cleartext, with each compression, is sent through the real Packetizer over a socket that accepts short writes and raises timeouts/EAGAIN; the accepted bytes are decoded by an independent codec and each packet must satisfy length = 1+payload+padding, 4<=padding<=255, encrypted portion a multiple of max(8, block) with the length excluded for ETM/GCM, MAC/tag length per algorithm, payload identical.",
+      "Concrete lengths only (not the symbolic 2^32 range).",
+      "DESIGN.md 5/C03")
